@@ -31,6 +31,10 @@ ASSUMPTIONS = [
     "the inexact-number stream compares the implementation with itself (original object vs loaded object): it says "
     "nothing about the correctness of the values, only that persistence does not change them or their classes; in "
     "its numpy variant a numpy float counts as the float it holds",
+    "the 17-digit stream and the numpy-results stream are implementation against implementation as well; a formula "
+    "that raises while the model is built (ROUND(1E+16,15): decimal.InvalidOperation) is data there — the history "
+    "compares how it raises on both sides; after trim_graph only the declared inputs are written (writes to other "
+    "surviving constants are outside trim_graph's contract: C08, Open)",
 ]
 
 CONTENT_POOL = [1e-7, 1e22, -0.0, 0.1, 123456789.125, 'true', 'null', '~', 'yes', '12', '1e3', '=notformula',
@@ -413,7 +417,17 @@ def run(ctx):
         "model): constants 0.1, 2.5, 1e-7, 1e22, 1/3 ... among text/boolean/blank cells under SUM/AVERAGE/COUNT/"
         "MAX/MIN and cell arithmetic x yml/json/pkl x histories of 6-10 set_value/evaluate: original vs loaded "
         "compared after every operation by repr AND exact class of the returned value and of every cell value; "
-        "a variant writes one or two constants as numpy.float64 before the save")
+        "a variant writes one or two constants as numpy.float64 before the save. 17-digit stream (implementation "
+        "against implementation): constants whose shortest repr has 17 digits (x op y of two short constants stored "
+        "next to the formula x op y, random floats of any magnitude, their 16-digit neighbours) typed into the "
+        "workbook / written with set_value before the save / frozen by trim_graph, under formulas that compare or "
+        "branch on them (=, <=, <>, IF(u=v), IF(u=literal), EXACT, MATCH, COUNTIF, MAX(range)=u, ROUND(u,15)=u, "
+        "(u-v)*1E+17, SIGN(u-v), u&\"\") x yml/json/pkl x histories: repr and class of every returned value and "
+        "every cell. Numpy-results stream: inputs A1:An, B1:Bn; column C formulas returning numpy scalars "
+        "(SUMPRODUCT, SLOPE, INTERCEPT, FORECAST, INDEX(LINEST()), FACTDOUBLE, TREND) read by column D through a "
+        "range (MAX/MIN/SUM/AVERAGE/COUNT/INDEX of C1:Cm) x yml/json/pkl x post-load histories that BEGIN with "
+        "writes to the inputs (nothing evaluated between load and first write) and evaluate mostly downstream "
+        "cells; returned values by repr and class after every operation, complete cell maps at the end")
     nwb = ctx.n(70, 800)
     nproc = 0
     batch = []          # correspondence cases (model = coq/Model/Persist.v)
@@ -690,6 +704,8 @@ def run(ctx):
     hash_stream(ctx, ExcelCompiler, batch)
     inexact_stream(ctx, ExcelCompiler)
     inexact_stream(ctx, ExcelCompiler, numpy_constants=True)
+    digits17_stream(ctx, ExcelCompiler)
+    numpy_results_stream(ctx, ExcelCompiler)
     correspondence(ctx, batch)
     shutil.rmtree(ctx.work, ignore_errors=True)
 
@@ -1003,3 +1019,357 @@ def inexact_stream(ctx, ExcelCompiler, numpy_constants=False):
                                       impl=sg.get(a), expected=sw.get(a))
                     if other:
                         break
+
+
+# ------------------------------------------------------------------ doubles whose shortest repr needs 17 digits
+def needs17(x):
+    """a finite double that 16 significant digits do not identify (its shortest repr has 17: 0.1+0.2, 1.1*1.1,
+    about half of all computed values)"""
+    return isinstance(x, float) and x == x and abs(x) != float('inf') and float(format(x, '.16g')) != x
+
+
+SHORT_OPERANDS = [0.1, 0.2, 0.3, 0.7, 1.1, 2.5, 1.15, 4.35, 1e-7, 1 / 3, 2 / 3, 3, 7, 100, 0.9, 1e16]
+ARITH = [('+', lambda a, b: a + b), ('-', lambda a, b: a - b), ('*', lambda a, b: a * b), ('/', lambda a, b: a / b)]
+
+
+def computed17(rng):
+    """(x, op, y, x op y) with short operands and a result that needs 17 digits"""
+    while True:
+        x, y = rng.choice(SHORT_OPERANDS), rng.choice(SHORT_OPERANDS)
+        op, fn = rng.choice(ARITH)
+        v = fn(x, y)
+        if needs17(v):
+            return x, op, y, v
+
+
+def long_float(rng):
+    """a double with a 17-digit repr: computed from short operands, or random (any magnitude, either sign)"""
+    while True:
+        c = rng.random()
+        if c < 0.3:
+            v = computed17(rng)[3]
+        elif c < 0.6:
+            v = rng.random()
+        elif c < 0.8:
+            v = rng.uniform(-1, 1) * 10 ** rng.randrange(-9, 12)
+        else:
+            v = rng.randrange(1, 1000) / rng.choice([3, 7, 9, 11, 13, 17, 19, 0.3, 0.7])
+        if needs17(v):
+            return v
+
+
+def digits17_stream(ctx, ExcelCompiler):
+    """Implementation against implementation.  Column A: constants, most of them doubles whose shortest repr has 17
+    digits (x op y of two short constants stored as a value next to its operands, random floats of any magnitude,
+    the 16-digit neighbour of such a number); column B: arithmetic/aggregates over A (among them the FORMULA x op y
+    whose value is the stored constant); column C: formulas that COMPARE or BRANCH on these values (=, <=, IF(u=v),
+    IF(u=<literal>), EXACT, MATCH/COUNTIF of the value in the column, MAX(range)=u, ROUND(u,15)=u, (u-v)*1E+17,
+    SIGN(u-v), u&"").  Three ways for such a number to be a constant of the saved model: typed into the workbook /
+    written with set_value before the save / a formula cell frozen by trim_graph.  Saved and loaded as yml, json
+    and pkl; the same history of set_value/evaluate on both objects; compared after every operation by repr and
+    exact class: the returned value and every cell of the cell map."""
+    rng = ctx.rng
+    S = wbgen.SHEET
+    for k in range(ctx.n(27, 300)):
+        variant = ['typed', 'written', 'trimmed'][k % 3]
+        x, op, y, xy = computed17(rng)
+        consts = [x, y, xy]
+        for _ in range(rng.randrange(1, 4)):
+            c = rng.random()
+            consts.append(float(format(rng.choice([v for v in consts if needs17(v)]), '.16g')) if c < 0.25
+                          else long_float(rng) if c < 0.8 else rng.choice(SHORT_OPERANDS + [0]))
+        nc = len(consts)
+        A = [f'A{r}' for r in range(1, nc + 1)]
+        derived = [f'=A1{op}A2']
+        for _ in range(rng.randrange(1, 4)):
+            c = rng.random()
+            u, v = rng.choice(A), rng.choice(A)
+            derived.append(f'={u}{rng.choice("+-*")}{v}' if c < 0.5 else f'=SUM(A{rng.randrange(1, 3)}:A{nc})' if c < 0.7
+                           else f'={u}/{rng.choice([3, 7, 10])}' if c < 0.85 else f'=AVERAGE(A1:A{nc})')
+        B = [f'B{r}' for r in range(1, len(derived) + 1)]
+        values = A[2:] + B                      # cells that hold the interesting numbers
+        twins = [('A3', 'B1')] + [(a, b) for a in A[2:] for b in A[2:] if a < b]
+        tests = []
+        for _ in range(rng.randrange(3, 7)):
+            u, v = rng.choice(twins) if rng.random() < 0.6 else (rng.choice(values), rng.choice(values))
+            while u == v:
+                u, v = rng.choice(values), rng.choice(values)
+            if rng.random() < 0.5:
+                u, v = v, u
+            w = rng.choice(values)
+            lit = rng.choice([c for c in consts if isinstance(c, float)])
+            if rng.random() < 0.4:
+                lit = float(format(lit, '.16g'))
+            c = rng.randrange(14)
+            tests.append([f'={u}={v}', f'=IF({u}={v},"eq","ne")', f'=IF({u}={lit!r},{w},{w}*2)', f'={u}<={v}',
+                          f'=({u}-{v})*1E+17', f'=EXACT({u},{v})', f'={u}&""', f'=MATCH({u},A1:A{nc},0)',
+                          f'=COUNTIF(A1:A{nc},{u})', f'=MAX(A1:A{nc})={u}', f'=ROUND({u},15)={u}', f'=SIGN({u}-{v})',
+                          f'=IF({u}<{v},{u},{v})={w}', f'={u}<>{lit!r}'][c])
+        C = [f'C{r}' for r in range(1, len(tests) + 1)]
+        cells = [(a, v, None) for a, v in zip(A, consts)] + [(b, None, t) for b, t in zip(B, derived)] + \
+            [(c, None, t) for c, t in zip(C, tests)]
+        desc = [(f'{S}!{a}', v, t) for a, v, t in cells]
+        written = [[f'{S}!{a}', long_float(rng)] for a in rng.sample(A, rng.randrange(1, 3))] \
+            if variant == 'written' else []
+        trim = None
+        if variant == 'trimmed':      # one or two constants stay inputs; what does not depend on them is frozen
+            trim = ([f'{S}!{a}' for a in rng.sample(A, rng.randrange(1, 3))], [f'{S}!{c}' for c in C])
+
+        def build():
+            import openpyxl
+            owb = openpyxl.Workbook()
+            ws = owb.active
+            ws.title = S
+            for a, v, t in cells:
+                ws[a] = v if t is None else t
+            return owb
+        plan = []        # the history, drawn once: (kind, position, value)
+        for _ in range(rng.randrange(6, 11)):
+            if rng.random() < 0.4:
+                c = rng.random()
+                plan.append(('set', rng.random(), long_float(rng) if c < 0.6 else rng.choice(SHORT_OPERANDS)
+                             if c < 0.9 else rng.choice(INEXACT_OTHER)))
+            else:
+                plan.append(('eval', rng.random(), None))
+        for ext in ('yml', 'json', 'pkl'):
+            case = dict(call='persist-digits17', workbook=desc, args=[ext, 'plain', 'same'], variant=variant)
+            if written:
+                case['written'] = written        # set_value(addr, value) before the save
+            if trim:
+                case['trim_graph'] = trim
+            ctx.count(('digits17', k, ext), kind=f'digits17:{variant}:{ext}', sample=case if ext == 'yml' else None)
+            stem = os.path.join(ctx.work, f'd{k}')
+            orig = ExcelCompiler(excel=build())
+            if trim:
+                try:
+                    orig.trim_graph(*trim)
+                except Exception:      # noqa: BLE001  (a formula that raises while it is frozen: C08's business)
+                    ctx.count(('digits17-skip', k, ext), kind='digits17:skip:trim_graph raises', nontrivial=False)
+                    continue
+            else:
+                for a, _, _ in desc:
+                    quiet_evaluate(orig, a)
+            for a, v in written:
+                orig.set_value(a, v)
+            addrs = [a for a in orig.cell_map if ':' not in a]
+            for a in addrs:
+                quiet_evaluate(orig, a)
+            try:
+                orig.to_file(stem, file_types=(ext,))
+                loaded = ExcelCompiler.from_file(stem + '.' + ext)
+            except Exception as exc:      # noqa: BLE001
+                ctx.violation(dict(case, leg='save/load'), f"save/load raises {type(exc).__name__}: {exc}"[:200])
+                continue
+            finally:
+                for f in os.listdir(ctx.work):
+                    if f.startswith(f'd{k}.'):
+                        os.remove(os.path.join(ctx.work, f))
+            for a in addrs:           # both caches complete: the cell maps are comparable cell by cell
+                quiet_evaluate(loaded, a)
+            # after trim_graph only the declared inputs are written: a write to another surviving constant is outside
+            # trim_graph's contract (C08, Open: the original still has the edge constant -> frozen cell and wipes the
+            # frozen value, the loaded model has no such edge)
+            writable = [a for a in addrs if orig.cell_map[a].formula is None and (trim is None or a in trim[0])]
+            readable = [a for a in addrs if orig.cell_map[a].formula is not None] or addrs
+            ops = [['set', writable[int(p * len(writable))], v] if kind == 'set' and writable else
+                   ['eval', readable[int(p * len(readable))]] for kind, p, v in plan]
+            ops += [['eval', a] for a in readable]
+            compare_histories(ctx, case, orig, loaded, ops)
+
+
+SCALARINT0 = ['ruamel.yaml.scalarint.ScalarInt', '0']
+
+
+def plain_zero(t):
+    """a typed observation in which ruamel's ScalarInt 0 reads as the int 0"""
+    if isinstance(t, list):
+        return ['builtins.int', '0'] if t == SCALARINT0 else [plain_zero(x) for x in t]
+    if isinstance(t, dict):
+        return {k: plain_zero(v) for k, v in t.items()}
+    return t
+
+
+def zero_constants(comp):
+    """addresses of the constant cells of a model that hold the integer 0"""
+    return sorted(a for a, c in comp.cell_map.items() if ':' not in a and getattr(c, 'formula', None) is None
+                  and type(c.value) is int and c.value == 0)
+
+
+@known_predicate('C03-scalarint-zero')
+def _scalarint_zero(case):
+    """the saved model has a constant cell holding the integer 0, and the only difference between the observations
+    is that the loaded model shows ruamel.yaml's ScalarInt 0 where the original shows the int 0 (decided by the
+    stream: diff == 'scalarint-zero' only when the observations are equal once ScalarInt 0 is read as int 0); any
+    other difference is NOT matched"""
+    return str(case.get('call', '')).startswith('persist-') and case.get('diff') == 'scalarint-zero' and \
+        bool(case.get('zero_constants'))
+
+
+def quiet_evaluate(comp, addr):
+    """evaluate for its effect on the cache; a formula that raises (ROUND(1E+16,15) ...) is data here: the history
+    compares how it raises on both sides"""
+    try:
+        comp.evaluate(addr)
+    except Exception:      # noqa: BLE001
+        pass
+
+
+def compare_histories(ctx, case, orig, loaded, ops, snapshots=True, numpy_as_float=False, final_snapshot=False):
+    """the same history on the original and on the loaded model; after every operation (and before the first):
+    repr and exact class of the returned value and (snapshots) of the value of every cell of both cell maps
+    (final_snapshot: of the cell maps after the last operation only).  Reports the first difference with the
+    history that leads to it.  Call it right after the load: the integer-0 constants of the original are read
+    then (finding C03-scalarint-zero: a difference that is only ScalarInt 0 for int 0 is reported under that
+    finding and the comparison goes on)."""
+    zeros = zero_constants(orig)
+
+    def snap(comp, on=snapshots):
+        return {a: typed(c.value, numpy_as_float) for a, c in comp.cell_map.items()} if on else {}
+
+    def observe(comp, op):
+        try:
+            if op[0] == 'eval':
+                r = ['ok', typed(comp.evaluate(op[1]), numpy_as_float)]
+            else:
+                comp.set_value(op[1], op[2])
+                r = ['ok', None]
+        except Exception as exc:      # noqa: BLE001
+            r = ['raise', type(exc).__name__]
+        return r, snap(comp)
+    for j in range(-1, len(ops)):
+        if j < 0:       # right after the load
+            rw = rg = None
+            sw, sg = snap(orig), snap(loaded)
+        else:
+            (rw, sw), (rg, sg) = observe(orig, ops[j]), observe(loaded, ops[j])
+        if final_snapshot and j == len(ops) - 1:
+            sw, sg = snap(orig, True), snap(loaded, True)
+        hist = ops[:j + 1]
+        if rw != rg:
+            if zeros and plain_zero(rg) == rw:
+                ctx.violation(dict(case, history=hist, diff='scalarint-zero', zero_constants=zeros),
+                              "the loaded model answers a history differently from the original (class of the value)",
+                              impl=rg, expected=rw)
+            else:
+                ctx.violation(dict(case, history=hist),
+                              "the loaded model answers a history differently from the original (repr / class of the value)",
+                              impl=rg, expected=rw)
+                return False
+        if sw != sg:
+            bad = sorted(set(sw) ^ set(sg)) or [a for a in sw if sw[a] != sg[a]]
+            other = [a for a in bad if not (zeros and a in sw and plain_zero(sg.get(a)) == sw[a])]
+            if not other:
+                ctx.violation(dict(case, history=hist, cell=bad[0], diff='scalarint-zero', zero_constants=zeros),
+                              "a cell of the loaded model holds another value (class) than the same cell of the original",
+                              impl=sg.get(bad[0]), expected=sw.get(bad[0]))
+            else:
+                ctx.violation(dict(case, history=hist, cell=other[0]),
+                              "a cell of the loaded model holds another value (repr / class) than the same cell of the original",
+                              impl=sg.get(other[0]), expected=sw.get(other[0]))
+                return False
+    return True
+
+
+# ------------------------------------------------------------------ formula results that are numpy scalars
+NUMPY_FORMS = [
+    lambda n, i, r1, r2: f'=SUMPRODUCT(A{r1}:A{r2},B{r1}:B{r2})',
+    lambda n, i, r1, r2: f'=SUMPRODUCT(A{r1}:A{r2},A{r1}:A{r2})',
+    lambda n, i, r1, r2: f'=SLOPE(B1:B{n},A1:A{n})',
+    lambda n, i, r1, r2: f'=INTERCEPT(B1:B{n},A1:A{n})',
+    lambda n, i, r1, r2: f'=FORECAST(A{i},B1:B{n},A1:A{n})',
+    lambda n, i, r1, r2: f'=FORECAST({i + 4},B1:B{n},A1:A{n})',
+    lambda n, i, r1, r2: f'=INDEX(LINEST(B1:B{n},A1:A{n}),{1 + i % 2})',
+    lambda n, i, r1, r2: f'=FACTDOUBLE(A{i})',
+    lambda n, i, r1, r2: f'=TREND(B1:B{n},A1:A{n})',
+]
+PLAIN_FORMS = [
+    lambda n, i, r1, r2: f'=A{i}*2',
+    lambda n, i, r1, r2: f'=A{i}+B{r1}',
+    lambda n, i, r1, r2: f'=SUM(B{r1}:B{r2})',
+]
+
+
+def numpy_results_stream(ctx, ExcelCompiler):
+    """Implementation against implementation.  A1:An / B1:Bn inputs (quantities, prices); C1:Cm formulas, most of
+    them returning NUMPY scalars (SUMPRODUCT, SLOPE, INTERCEPT, FORECAST, INDEX(LINEST()), FACTDOUBLE, TREND); column
+    D reads column C THROUGH A RANGE (MAX/MIN/SUM/AVERAGE/COUNT/INDEX of C1:Cm or a part of it) or directly, E1
+    adds two of them.  Everything is evaluated, saved as yml, json and pkl, loaded; the post-load history BEGINS
+    WITH WRITES to the inputs and then evaluates mostly the downstream cells (D, E) — nothing is evaluated between
+    load and the first write, so what from_file left in the cache is what the writes have to invalidate.  Compared
+    after every operation: repr and exact class of the returned value; at the end every cell is evaluated on both
+    sides and the complete cell maps are compared."""
+    rng = ctx.rng
+    S = wbgen.SHEET
+    numbers = [1, 2, 3, 4, 5, 7, 10, 0, 0.25, 0.5, 1.5, 2.5, 4, 0.1, 12, -2]
+    for k in range(ctx.n(24, 300)):
+        n = rng.randrange(3, 6)
+        qty = [rng.choice([1, 2, 3, 4, 5, 7, 10]) for _ in range(n)]
+        price = [rng.choice(numbers) for _ in range(n)]
+        m = rng.randrange(3, 6)
+        mid = []
+        for r in range(m):
+            r1 = rng.randrange(1, n)
+            r2 = rng.randrange(r1 + 1, n + 1)
+            forms = NUMPY_FORMS if (r == 0 or rng.random() < 0.65) else PLAIN_FORMS
+            mid.append(rng.choice(forms)(n, rng.randrange(1, n + 1), r1, r2))
+        rng.shuffle(mid)
+        down = []
+        for _ in range(rng.randrange(2, 5)):
+            r1 = rng.randrange(1, m)
+            r2 = rng.randrange(r1 + 1, m + 1)
+            if rng.random() < 0.5:
+                r1, r2 = 1, m
+            c = rng.randrange(8)
+            down.append([f'=MAX(C{r1}:C{r2})', f'=SUM(C{r1}:C{r2})/2', f'=MIN(C{r1}:C{r2})', f'=AVERAGE(C{r1}:C{r2})',
+                         f'=COUNT(C{r1}:C{r2})', f'=INDEX(C{r1}:C{r2},{rng.randrange(1, r2 - r1 + 2)})',
+                         f'=C{r1}+C{r2}', f'=IF(MAX(C{r1}:C{r2})>10,C{r1},C{r2})'][c])
+        down[0] = rng.choice([f'=MAX(C1:C{m})', f'=SUM(C1:C{m})/2', f'=MIN(C1:C{m})'])
+        last = [f'=D1+D{len(down)}']
+        cells = [(f'A{r}', v, None) for r, v in enumerate(qty, 1)] + [(f'B{r}', v, None) for r, v in enumerate(price, 1)] + \
+            [(f'C{r}', None, t) for r, t in enumerate(mid, 1)] + [(f'D{r}', None, t) for r, t in enumerate(down, 1)] + \
+            [('E1', None, last[0])]
+        desc = [(f'{S}!{a}', v, t) for a, v, t in cells]
+        inputs = [a for a, _, t in desc if t is None]
+        middle = [a for a, _, t in desc if a.startswith(f'{S}!C')]
+        outputs = [a for a, _, t in desc if t is not None and a not in middle]
+
+        def build():
+            import openpyxl
+            owb = openpyxl.Workbook()
+            ws = owb.active
+            ws.title = S
+            for a, v, t in cells:
+                ws[a] = v if t is None else t
+            return owb
+        ops = []
+        for step in range(rng.randrange(8, 13)):
+            head = step < 2 or (step == 2 and rng.random() < 0.5)      # the history begins with writes
+            if head or rng.random() < 0.4:
+                ops.append(['set', rng.choice(inputs), rng.choice(numbers)])
+            else:
+                ops.append(['eval', rng.choice(outputs) if rng.random() < 0.8 else rng.choice(middle)])
+            if step == 2:
+                ops.append(['eval', outputs[0]])
+        ops += [['eval', a] for a in outputs + middle]
+        for ext in ('yml', 'json', 'pkl'):
+            case = dict(call='persist-numpy-results', workbook=desc, args=[ext, 'plain', 'same'])
+            ctx.count(('numpy-results', k, ext), kind=f'numpy-results:{ext}', sample=case if ext == 'pkl' else None)
+            stem = os.path.join(ctx.work, f'n{k}')
+            orig = ExcelCompiler(excel=build())
+            for a, _, _ in desc:
+                quiet_evaluate(orig, a)
+            import numpy as np
+            if ext == 'yml' and not any(isinstance(c.value, np.generic) for c in orig.cell_map.values()):
+                ctx.count(('numpy-results-none', k), kind='numpy-results:no numpy scalar among the results',
+                          nontrivial=False)
+            try:
+                orig.to_file(stem, file_types=(ext,))
+                loaded = ExcelCompiler.from_file(stem + '.' + ext)
+            except Exception as exc:      # noqa: BLE001
+                ctx.violation(dict(case, leg='save/load'), f"save/load raises {type(exc).__name__}: {exc}"[:200])
+                continue
+            finally:
+                for f in os.listdir(ctx.work):
+                    if f.startswith(f'n{k}.'):
+                        os.remove(os.path.join(ctx.work, f))
+            compare_histories(ctx, case, orig, loaded, ops, snapshots=False, final_snapshot=True)
